@@ -70,9 +70,11 @@ def objective(X, S, lam):
     """-log det X + tr(S X) + sum over the upper triangle of lam*|X| (the form the solver uses:
     one penalty term per stored entry)."""
     n = X.shape[0]
-    sign, ld = np.linalg.slogdet(X)
-    if sign <= 0:
+    try:
+        C = np.linalg.cholesky((X + X.T) / 2)       # the objective is +inf outside the positive-definite cone
+    except np.linalg.LinAlgError:
         return math.inf
+    ld = 2.0 * float(np.sum(np.log(np.diag(C))))
     L = lambda_matrix(lam, n)
     iu = np.triu_indices(n)
     return -ld + float(np.sum(S * X)) + float(np.sum(L[iu] * np.abs(X[iu])))
